@@ -46,7 +46,7 @@ def scenario(draw) -> Dict[str, Any]:
     ops: List[Dict[str, Any]] = []
     n = draw(st.integers(1, 7))
     for i in range(n):
-        kind = draw(st.sampled_from(['register', 'register', 'browser', 'browser', 'lookup', 'query', 'query', 'tc', 'cancel']))
+        kind = draw(st.sampled_from(['register', 'register', 'browser', 'browser', 'lookup', 'query', 'query', 'tc', 'cancel', 'unregister']))
         t = draw(st.one_of(st.sampled_from([0, 0, 100, 1000, 2000]), st.integers(0, 3000)))
         op: Dict[str, Any] = {'t': t, 'op': kind}
         if kind == 'register':
@@ -79,6 +79,15 @@ def scenario(draw) -> Dict[str, Any]:
         likely = 250 if any(o['op'] == 'register' for o in ops) else 0
         close = {'cleanup': draw(st.integers(1, 3)), 'pre_ms': draw(st.sampled_from([likely, likely, likely, 250 - likely])),
                  'off_ticks': draw(st.integers(-1, 5)), 'tick_us': draw(st.sampled_from([1, 20, 1000]))}
+    elif draw(st.integers(0, 5)) == 0:
+        # one service settled, a second one still probing, the first unregistered (goodbye task not awaited) and the instance closed
+        # right away: the close waits for the goodbyes of the first, and the second completes its registration meanwhile
+        t_b = draw(st.sampled_from([1500, 1600, 2000]))
+        d_u = draw(st.sampled_from([100, 200, 300, 400, 500]))
+        ops = [{'t': 0, 'op': 'register', 'svc': 0}, {'t': t_b, 'op': 'register', 'svc': 1}, {'t': t_b + d_u, 'op': 'unregister'}] + \
+              [o for o in ops if o['op'] not in ('register', 'unregister')]
+        n = len(ops)
+        close = {'at': t_b + d_u + draw(st.sampled_from([0, 0, 1, 50, 130]))}
     elif draw(st.booleans()):
         close = {'rel': draw(st.integers(0, n - 1)), 'delta': draw(st.sampled_from(GRID))}
     else:
@@ -161,6 +170,8 @@ class Exec:
         self.tasks: List[Tuple[str, asyncio.Future]] = []
         self.listeners: List[sim.RecListener] = []
         self.registered: Dict[int, Dict[str, Any]] = {}   # svc index -> {'g_done': g} when async_register_service returned
+        self.unregistered: Set[int] = set()
+        self.infos: Dict[int, Any] = {}
         self.g_close_call = self.g_close_done = None
         self.t_close_call = self.t_close_done = None
         self.g_second = None
@@ -262,6 +273,14 @@ class Exec:
             elif kind == 'cancel' and browsers:
                 b = browsers.pop(0)
                 self.tasks.append((f'cancel{i}', asyncio.ensure_future(b.async_cancel())))
+            elif kind == 'unregister':
+                # one registered service is unregistered; the task that sends its goodbyes is not awaited by the application
+                done = [k for k in sorted(self.registered) if k not in self.unregistered and
+                        x.zc.registry.async_get_info_name(VICTIM_SVCS[k]['name'].lower()) is not None]
+                if done:
+                    k = done[0]
+                    self.unregistered.add(k)
+                    self.tasks.append((f'unregister{k}', asyncio.ensure_future(x.azc.async_unregister_service(self.infos[k]))))
             elif kind == 'lookup':
                 name = PEER_SVC['name'] if op['target'] == 'peer' else 'ghost.' + TYPES[0]
                 info = AsyncServiceInfo(TYPES[0], name)
@@ -292,6 +311,7 @@ class Exec:
 
     async def _register(self, x: sim.Host, k: int) -> str:
         info = sim.make_service_info(VICTIM_SVCS[k])
+        self.infos[k] = info
         task = await x.azc.async_register_service(info)
         w = x.world
         w.gseq += 1
@@ -391,7 +411,9 @@ def check(case: Dict[str, Any]) -> Dict[str, Any]:
                             tag='task-raised:' + type(val).__name__)
     # goodbyes for everything that was in the registry when close was called
     for s in ex.in_registry_at_close:
-        want = {s.ptr(), s.srv(), s.txt()} | set(s.addresses())
+        # (address records are withdrawn with the last service of their host name - C08's rule; that they end on a goodbye is the
+        # last-word clause above)
+        want = {s.ptr(), s.srv(), s.txt()}
         n_bye = 0
         for e in trace:
             if e['host'] != 'X' or not (ex.g_close_call < e['g'] < ex.g_close_done) or e['dst'] != sim.MDNS4:
@@ -402,7 +424,9 @@ def check(case: Dict[str, Any]) -> Dict[str, Any]:
             zero = {rp.ident_of_wire_rr(r) for r in m['an'] if r['ttl'] == 0}
             if want <= zero:
                 n_bye += 1
-        if n_bye != 3:
+        # a service whose (not awaited) unregister was issued at the very instant of the close is withdrawn by both paths
+        also_unregistered = any(VICTIM_SVCS[k]['name'] == s.name for k in ex.unregistered)
+        if n_bye != 3 and not (also_unregistered and n_bye == 6):
             raise Violation(f'service in the registry at close time got {n_bye} complete goodbyes instead of three before the '
                             'sockets closed', dict(det, service=s.name), tag='close-goodbyes')
     # the last word: whatever the victim multicast about one of its services with a non-zero TTL (announcement or answer, also
@@ -442,6 +466,8 @@ def check(case: Dict[str, Any]) -> Dict[str, Any]:
         classes.append('close-with-browser-timer')
     if ex.in_registry_at_close:
         classes.append('close-with-registered-services')
+    if any(n.startswith('unregister') for n in ex.pending_at_close) or ex.unregistered:
+        classes.append('close-after-an-unregister-that-was-not-awaited')
     if any(ex.g_close_call < c['g'] < ex.g_close_done and c['socks_closed'] for c in ex.plain.calls):
         classes.append('purge-timer-fired-between-socket-shutdown-and-timer-cancel')
         busy = True
